@@ -263,6 +263,7 @@ def run_property(pid, tier, seed, replay=None, spec=None):
             for ki, kd in enumerate(kinds):       # "hooked|wasm": the first flavour that builds against the tree under test
                 try:
                     binary = runner.build_harness(kd)
+                    used_kind = kd
                     if ki > 0:
                         notes.append(f"harness flavour '{kinds[0]}' does not build against the tree; scenario '{scen}' driven by flavour '{kd}'")
                     break
@@ -275,8 +276,8 @@ def run_property(pid, tier, seed, replay=None, spec=None):
             notes.append(f"hook tier unavailable, scenario '{scen}' skipped: {str(e)[:300]}")
             log(f"[skip] {scen}: hooked harness does not build; the public-API scenarios decide")
             continue
-        if replay and hdr.get("build") == "shipping" and kind == "core":
-            binary = runner.build_harness("shipping")
+        if replay and hdr.get("build") == "shipping":
+            binary = runner.build_harness(runner.SHIP[used_kind])
         scen_full, variant = scen, ""
         if ":" in scen:
             scen, variant = scen.split(":", 1)
@@ -324,9 +325,9 @@ def run_property(pid, tier, seed, replay=None, spec=None):
         ran.append(scen_full)
         # second build configuration: the same scenario driven against the crate compiled as users ship it (no debug assertions,
         # no overflow checks).  Identical trace -> identical verdict, nothing more to judge; a different trace is judged as well.
-        if kind == "core" and not replay:
+        if not replay:
             try:
-                ship = runner.build_harness("shipping")
+                ship = runner.build_harness(runner.SHIP[used_kind])
             except ToolError as e:
                 ship = None
                 notes.append(f"shipping flavour does not build: {str(e)[:200]}")
@@ -387,7 +388,7 @@ def run_property(pid, tier, seed, replay=None, spec=None):
         "other_property_diagnostics": others,
         "spec_invariants": spec.get("invariants", ""),
         "scenarios": ran,
-        "shipping_build": dict(ship_stats, note="public-API scenarios driven a second time against the crate compiled without debug assertions and overflow checks; a byte-identical trace shares the verdict, a different one is judged too"),
+        "shipping_build": dict(ship_stats, note="every scenario is driven a second time against the crate compiled without debug assertions and overflow checks (same harness flavour, shipping profile); a byte-identical trace shares the verdict, a different one is judged too"),
         "notes": notes + [json.dumps(x)[:400] for x in tv_total["notes"][:3]],
         "exhaustive": False,
         "enumerated_domains": doms,
